@@ -37,6 +37,7 @@ class Finding:
     line: int
     msg: str
     detail: Any = None
+    construct: Optional[str] = None     # normalised text of the offending statement: lets a known finding follow code that is moved between functions
 
     def ident(self):
         return (self.prop, self.rule, self.key)
@@ -68,20 +69,20 @@ class Rule:
             if len(self.stat.samples) < 6:
                 self.stat.samples.append(sample)
 
-    def fail(self, key: str, where, msg: str, detail: Any = None):
+    def fail(self, key: str, where, msg: str, detail: Any = None, construct: Optional[str] = None):
         """``where`` is (relpath, line) or (Mod, ast node)."""
         self.stat.obligations += 1
         self.stat.failed += 1
         f, ln = _where(where)
         self.cx.findings.append(
-            Finding(self.cx.prop, self.stat.rid, key, f, ln, msg, detail)
+            Finding(self.cx.prop, self.stat.rid, key, f, ln, msg, detail, construct)
         )
 
-    def check(self, cond: bool, key: str, where, msg: str, sample: Optional[str] = None, detail=None):
+    def check(self, cond: bool, key: str, where, msg: str, sample: Optional[str] = None, detail=None, construct: Optional[str] = None):
         if cond:
             self.ok(sample if sample is not None else key)
         else:
-            self.fail(key, where, msg, detail)
+            self.fail(key, where, msg, detail, construct)
         return cond
 
 
@@ -157,12 +158,29 @@ def run_check(prop: str, fn, tier: str, replay: Optional[str] = None) -> int:
     known_open = {(k["rule"], k["key"]): k for k in known if k.get("status") == "known"}
     matched, unknown = [], []
     seen = set()
+    pending = []
+    used = set()
     for f in cx.findings:
         if f.ident() in seen:
             continue
         seen.add(f.ident())
         k = known_open.get((f.rule, f.key))
         if k is not None:
+            matched.append((f, k))
+            used.add((k["rule"], k["key"]))
+        else:
+            pending.append(f)
+    # a listed finding follows its statement when the code is moved to another function: same rule, same construct part of
+    # the key (after the function name), same normalised statement text; each listed entry answers for one site only
+    for f in pending:
+        k = None
+        if f.construct is not None and "/" in f.key:
+            for kk in known:
+                if kk.get("status") == "known" and kk["rule"] == f.rule and (kk["rule"], kk["key"]) not in used and kk.get("construct") == f.construct and "/" in kk["key"] and kk["key"].split("/", 1)[1] == f.key.split("/", 1)[1]:
+                    k = kk
+                    break
+        if k is not None:
+            used.add((k["rule"], k["key"]))
             matched.append((f, k))
         else:
             unknown.append(f)
